@@ -36,7 +36,7 @@ Semantics of the subset (the translator's conventions; printed in the generated 
   * `np.cos`, `np.sin`, `np.pi` are parameters; a decimal literal is the rational it denotes (`0.95` = `19 / 20`).
 A source outside the subset gives `def srcShape_<f> : Bool := false` and the broken obligation `srcShape_<f>_recognised`.
 """
-import ast, os, re
+import ast, os, re, warnings
 from fractions import Fraction
 
 from .py2lean import (Shape, lean_str, strip_doc, GEN, bindings_section, render_signature, signature_text, sanitize,
@@ -61,7 +61,8 @@ TY = {"S": "α", "XS": "Option α", "N": "Nat", "I": "Int", "B": "Bool", "STR": 
       "LI": "List Int", "OSTR": "Option String", "OXY": "Option (α × α × α × α)", "XY": "α × α × α × α",
       "XL": "List (Option α)", "FL": "List α", "BL": "List Bool", "M2": "Mat2 α", "V2": "α × α", "FD": "List (α × α)",
       "MT": "List (Row α)", "ROW": "Row α", "AX": "Axes", "FIG": "SFig α", "OLN": "Option (List Nat)", "LN": "List Nat",
-      "OLS": "Option (List String)", "LFD": "List (List (α × α))", "LFL": "List (List α)", "Z": "Int"}
+      "OLS": "Option (List String)", "LFD": "List (List (α × α))", "LFL": "List (List α)", "Z": "Int",
+      "LE": "LandExact α", "LA": "LandApprox α"}
 OPTION_PAYLOAD = {"OXY": "XY", "OSTR": "STR", "OLI": "LI", "OLN": "LN", "OLS": "LS"}
 
 
@@ -264,7 +265,7 @@ RESERVED = set(FIXED_BINDERS) | {
     "fin", "finL", "offsets", "colBirth", "colDeath", "colDist", "astypeF32", "npConcatenate", "flatten2", "anyIsinf", "selectFinite",
     "npMin", "npMax", "colSubInPlace", "setWhereInf", "isfiniteMask", "maskRows", "npSize", "zeroRow", "vecDot", "dotRows",
     "pyEnumerate", "pyGet", "compGet", "seqOf", "truthy", "truthyStr", "listOfArg", "labelsOrElse", "broadcastStr", "hLabel", "lamLabel",
-    "argmax?", "some", "none", "true", "false", "List", "Option", "Except", "Axes", "SFig", "SArtist", "Labels", "DgmsArg", "Err",
+    "rangeOr", "strOf", "argmax?", "some", "none", "true", "false", "List", "Option", "Except", "Axes", "SFig", "SArtist", "Labels", "DgmsArg", "Err",
     "Nat", "Int", "Bool", "String", "Dgm", "Row", "Mat2", "linspace", "natCast", "pairsCol0", "pairsCol1", "match", "with", "fun", "let",
     "if", "then", "else", "by", "at", "do", "in", "from", "have", "show", "end", "def", "theorem", "open", "namespace", "section",
     "variable", "where", "deriving", "instance", "structure", "inductive", "Type", "Prop", "Sort", "cast", "infv", "cos", "sin", "pi"}
@@ -431,6 +432,8 @@ class Fn:
             return V("DgmsArg.single %s" % v.a(), "DA", atom=False)
         if v.ty in ("OLI", "OLN", "OLS") and want == OPTION_PAYLOAD[v.ty]:
             return V("seqOf %s" % v.a(), want, atom=False)
+        if v.ty == "OSTR" and want == "STR":
+            return V("strOf %s" % v.a(), "STR", atom=False)
         if v.ty == "N" and want == "Z":
             return V("(%s : Int)" % v.t, "Z", atom=True)
         raise Shape("`%s` has type %s where %s is needed" % (ast.unparse(node) if node is not None else v.t, lty(v.ty), lty(want)))
@@ -593,6 +596,8 @@ class Fn:
             raise Shape("subscript: %s" % ast.unparse(node))
         k = const_int(sl)
         a = self.expr(node.value)
+        if a.ty == "OLS":
+            a = self.coerce(a, "LS")
         if a.ty == "V2" and k in (0, 1):
             return V("%s.%d" % (a.a(), k + 1), "S", atom=True)
         if a.ty == "LS" and k is not None and k >= 0:
@@ -985,6 +990,12 @@ class Fn:
                 raise Shape("a default that can raise: %s" % ast.unparse(val))
             return x, "SL", "labelsOrElse %s %s" % (self.cur(x).t, e.a())
         b = {}
+        if ty == "OLN" and tm("not _X", s.test, b) and dotted(b["_X"]) == x and tm("range(_E)", val, b):
+            e = self.expr(b["_E"], "Z")
+            if self.pre:
+                raise Shape("a default that can raise: %s" % ast.unparse(val))
+            return x, "LN", "rangeOr %s %s" % (self.cur(x).t, e.a())
+        b = {}
         if ty == "SL" and tm("not isinstance(_X, list)", s.test, b) and dotted(b["_X"]) == x \
                 and tm("[_X] * len(_D)", val, b) and dotted(b["_X"]) == x:
             d = self.expr(b["_D"])
@@ -1282,6 +1293,7 @@ FILES = {KEY: (PYFILE, "SrcPlot.lean", "PersimVerif.Src.visuals",
                "PersimVerif.Model.Plot\nimport PersimVerif.Lemmas.SrcLibPlot\nimport PersimVerif.Lemmas.SrcBridgePlot", "C20",
                "PersimVerif.Plot PersimVerif.SrcPlot")}
 BRIDGES = ["PersimVerif/Lemmas/SrcLibPlot.lean", "PersimVerif/Lemmas/SrcBridgePlot.lean"]
+COMPOSED = ["PersimVerif/Lemmas/SrcPlotPublic.lean"]         # hand-written, imports the generated file and Props/C20.lean
 REF = "PersimVerif.SrcBridge.Plot.Ref"
 BR = "PersimVerif.SrcBridge.Plot"
 
@@ -1397,7 +1409,9 @@ def stub(cfg):
             "def %s %s :\n    Except Err (SFig α) :=\n  %s.%s %s" % (cfg["func"], cfg["lean"], cfg["lean"], allb, REF, cfg["lean"], alla))
 
 
-OBJECTS = {}
+# the landscape objects: the attributes the plots read, the type of an item of `enumerate(landscape)`
+OBJECTS = {"LE": {"attrs": {"max_depth": "Z"}, "item": "FD"},
+           "LA": {"attrs": {"max_depth": "Z", "start": "S", "stop": "S"}, "item": "FL"}}
 
 
 HEADER = (
@@ -1504,7 +1518,9 @@ def render_file(key, root):
         err0, unit, tree = None, None, None
         try:
             src = open(os.path.join(root, path)).read()
-            tree = ast.parse(src)
+            with warnings.catch_warnings():          # `f"$\lambda…"`: an invalid escape sequence in the source is the source's business
+                warnings.simplefilter("ignore")
+                tree = ast.parse(src)
             unit = Unit(path, src, tree)
         except (OSError, SyntaxError) as e:
             err0 = "%s: %s" % (type(e).__name__, e)
@@ -1655,7 +1671,7 @@ def register(base):
 
     def pfiles(key):
         if key in FILES:
-            return list(BRIDGES) + [base.prop_file(key)]
+            return list(BRIDGES) + [base.prop_file(key)] + list(COMPOSED)
         return inner["prop_files"](key)
     base.render_file, base.trusted_note, base.manifest_note, base.all_target_functions, base.prop_files = render, tnote, mnote, targets, pfiles
 
